@@ -193,6 +193,41 @@ def run(ctx):
                 o = [x for x in pos if not x[0].startswith("@")]
                 opt = o[0][0] if o else None
             table.setdefault((is_cmd, cmd, st, opt), []).append(p)
+        # D1-ARG-EMPTY: an argument exists (Some) only when bytes remain after the leading blanks were skipped: the path that builds Some(..)
+        #               has established cursor != end (however it is tested); otherwise `@cmd   ` would carry an empty argument
+        somep = [p for p in ret_paths(paths) if al is not None and unwrap_some(p.env.get(al)) is not None]
+        badsome = []
+        for p in somep:
+            av = unwrap_some(p.env.get(al))
+            ix = [s_ for s_ in subterms(av) if is_index_call(s_)]
+            lo = canon_range(call_args(ix[0])[0], call_args(ix[0])[1])[0] if ix and canon_range(call_args(ix[0])[0], call_args(ix[0])[1]) else None
+            est = False
+            for c in p.conds():
+                t = c.term
+                if isinstance(t, tuple) and t and t[0] == "binop" and t[1] in ("Eq", "Ne", "Lt", "Ge", "Gt", "Le") and lo is not None and c.fact[0] == "eq" and isinstance(c.fact[1], bool):
+                    a_, b_ = strip_refs(t[2]), strip_refs(t[3])
+                    islen = lambda u: (is_call(u, "::len") and mentions(u, lambda s_: s_ == ("param", 1)))
+                    if a_ == strip_refs(lo) and islen(b_):
+                        rel, truth = t[1], c.fact[1]
+                    elif b_ == strip_refs(lo) and islen(a_):
+                        rel, truth = {"Lt": "Gt", "Gt": "Lt", "Le": "Ge", "Ge": "Le"}.get(t[1], t[1]), c.fact[1]
+                    else:
+                        continue
+                    # cursor REL len holds with `truth`: does that imply cursor != len (given cursor <= len)?
+                    implies = (rel == "Eq" and not truth) or (rel == "Ne" and truth) or (rel == "Lt" and truth) or (rel == "Ge" and not truth)
+                    est = est or implies
+            if not est:
+                badsome.append(p)
+        ctx.check(bool(somep) and not badsome, "D1-ARG-EMPTY", EFB, "argument-only-if-bytes-remain", "Some(argument) only after cursor != end was established (%d paths)" % len(somep),
+                  "an argument is produced (Some) on a path that has not established that bytes remain after the blanks: a command followed only by blanks would carry an empty argument instead of none",
+                  fn_span(body), nontrivial=False)
+        # D1-CMD-WORD: the command literals are compared with the command word as written (no case folding, trimming or other rewriting)
+        scr = [x for p in ret_paths(paths) for (lit, x) in true_str_lits(p)[0] if lit.startswith("@")]
+        fold = sorted({mir.norm_path(s_[1]).rsplit("::", 1)[-1] for x in scr for s_ in subterms(x)
+                       if is_call(s_, "::to_ascii_lowercase", "::to_lowercase", "::to_ascii_uppercase", "::to_uppercase", "::trim", "::trim_end", "::trim_start", "::trim_matches", "::replace", "::make_ascii_lowercase")})
+        ctx.check(bool(scr) and not fold, "D1-CMD-WORD", EFB, "command-compared-as-written", "command literals are compared with the word as written",
+                  "the command word is rewritten (%s) before it is compared with the supported commands: e.g. @CWD would be taken for @cwd instead of being an unsupported command" % fold,
+                  fn_span(body), nontrivial=False)
 
         def outcome(p):
             r = p.end[1]
@@ -330,13 +365,28 @@ def run(ctx):
             av = unwrap_some(p.env.get(al)) if al is not None else None
             if av is None:
                 continue
-            ix = [s for s in subterms(av) if is_call(s, "ops::Index>::index", "Index<I> for [T]>::index")]
+            # the argument is the slice bytes[idx..len] itself, seen through OsStr::from_bytes / references only: nothing trims or copies part of it
+            x = strip_refs(av)
+            for _ in range(6):
+                if is_call(x, "OsStrExt>::from_bytes", "OsStr::from_bytes", "::from_bytes", "AsRef", "::as_ref", "Deref>::deref") and len(call_args(x)) == 1 and not is_call(x, EFB):
+                    x = strip_refs(call_args(x)[0])
+                else:
+                    break
             good = False
-            for s in ix:
-                va = agg_variant(call_args(s)[1])
-                if va and va[1] in ("Range", "RangeFrom"):
-                    endok = va[1] == "RangeFrom" or (is_call(va[2][1], "::len") and strip_refs(call_args(va[2][1])[0]) == ("param", 1))
-                    good = good or endok
+            if is_index_call(x):
+                inner = strip_refs(call_args(x)[0])
+                # bytes, or the no-op re-slice bytes[0..len]
+                if is_index_call(inner) and canon_range(call_args(inner)[0], call_args(inner)[1]) is not None:
+                    r0 = canon_range(call_args(inner)[0], call_args(inner)[1])
+                    if const_int(r0[0]) == 0 and r0[1] == LEN:
+                        inner = strip_refs(call_args(inner)[0])
+                rg = canon_range(call_args(x)[0], call_args(x)[1])
+                if rg is not None and inner == ("param", 1):
+                    hi = rg[1]
+                    good = hi == LEN or (is_call(strip_refs(hi), "::len") and content(call_args(strip_refs(hi))[0]) in (("param", 1), inner))
+                    # `end` may be a local holding bytes.len()
+                    if not good and isinstance(hi, tuple):
+                        good = is_call(strip_refs(hi), "::len") and mentions(hi, lambda s_: s_ == ("param", 1))
             tails += 1
             if not good:
                 ctx.violation("D1-ARG-TAIL", EFB, "argument-range", "the argument is not the tail bytes[idx..len] of the line", fn_span(body))
